@@ -16,6 +16,8 @@ git checkout -q -- .
 echo "demo without patch rc=$rc0 ; with patch rc=$rc1 ; pinned tests with patch: $tests"
 # now the checks, against /repo itself
 cd /repo && git apply $dst/patch.diff || { echo "patch does not apply to /repo"; exit 2; }
+# evidence files must only ever come from the unchanged tree: keep them aside while the checks run on the patched one
+ev=$(mktemp -d /root/scratch/evidence-keep.XXXXXX); cp -a /verif/evidence/. "$ev"/
 res=""
 for c in $id "$@"; do
   out=$(cd /verif && VERIF_SEED=${VERIF_SEED:-0} timeout 900 ./check $c ${TIER:-quick} 2>&1); rc=$?
@@ -25,6 +27,7 @@ for c in $id "$@"; do
   res="$res $r:$c:$m"
 done
 git -C /repo checkout -- . ; git -C /repo status --short | head -3
+cp -a "$ev"/. /verif/evidence/; rm -rf "$ev"
 /venv/bin/python - "$dst" "$rc0" "$rc1" "$tests" "$res" <<'PY'
 import json, sys
 d, rc0, rc1, tests, res = sys.argv[1:6]
